@@ -12,6 +12,7 @@ on every path:
   read->write  (L2r, L7)                       the writer is run from the reader's final state:
                                                 it must re-emit what was consumed
 """
+import re
 import sym
 from sym import Lin
 import codec
@@ -119,7 +120,7 @@ class LayoutRules:
                 else:
                     pad = trailing_pad(p.items, S)
                     emitted = total(p.items) - (pad.width if pad else Lin(0))
-                    ok = emitted == S
+                    ok = emitted == S or sym.subst_eq(emitted, p.guards) == sym.subst_eq(S, p.guards)
                     rep.ob('L3', '%s|%s' % (sc, g), ok, self.fnsite(cls, 'write'),
                            '%s: write() emits %r bytes but calculateObjectSize() declares %r [when %s]' % (sc, emitted, S, g)
                            if not ok else '%s: emitted == declared == %r [when %s]' % (sc, S, g),
@@ -244,6 +245,70 @@ class LayoutRules:
         I, paths = self.read_paths(cls)
         for p in paths:
             self.sink_obligations(cls, p, 'read', rules)
+        if 'L9' in rules:
+            self.check_shape_members(cls, paths)
+        if 'E6' in rules:
+            # alignment padding is stepped over, not read: a read of padding that is cut off (or absent behind the last object of a file
+            # written by another tool) sets eof|fail, and the good()-check behind the decode then discards an object / container whose own
+            # bytes were all there
+            rep = self.rep
+            pads = {}
+            for p in paths:
+                for it in p.items:
+                    if it.kind == 'pad':
+                        pads.setdefault((it.file, it.line), it)
+            for (f_, l_), it in sorted(pads.items(), key=lambda kv: (str(kv[0][0]), kv[0][1] or 0)):
+                rep.count('E6')
+                ok = not (isinstance(it.extra, dict) and it.extra.get('by_read'))
+                rep.ob('E6', '%s|pad@%s' % (short(cls), short(it.fn)), ok, self.site(it),
+                       '%s: %s steps over %r padding bytes with seekg' % (short(cls), short(it.fn), it.width) if ok else
+                       '%s: %s consumes %r padding bytes by reading them: on a stream that ends inside (or right before) the padding the read sets '
+                       'eof|fail and the complete %s in front of it is discarded by the stream-state check that follows the decode' %
+                       (short(cls), short(it.fn), it.width, 'container' if short(cls) == 'LogContainer' else 'object'), nontrivial=True)
+
+    # ------------------------------------------------------------------ L9: what decides the shape is an unsigned word
+    def field_of_path(self, cls, path):
+        cur = cls
+        f = None
+        for name in path:
+            r = self.F.field(cur, name)
+            if r is None:
+                return None
+            f = r[1]
+            cur = f.get('rec') or cur
+        return f
+
+    def check_shape_members(self, cls, paths):
+        """every serialised member whose value decides the shape of the object while decoding - it occurs in a guard that read() takes or in
+        the size of a read / resize / skip - has an unsigned (or bool / enum) type.  The format's words are unsigned (every such member in
+        the code base is); a signed one sends the upper half of its bit patterns down the other layout branch, or turns a length negative."""
+        rep = self.rep
+        sc = short(cls)
+        seen = {}
+        for p in paths:
+            lins = []
+            for g in p.guards:
+                if isinstance(g, tuple) and g[0] == 'cmp':
+                    lins.append(Lin(0, dict(g[1])))
+                elif isinstance(g, tuple) and g[0] == 'bits':
+                    lins.append(Lin(g[1][0], dict(g[1][1])))
+            for it in p.items:
+                lins.append(it.width)
+            for l in lins:
+                for t in l.all_atoms():
+                    if t[0] == 'in' and isinstance(t[1], tuple) and t[1] and not str(t[1][0]).startswith('$'):
+                        seen.setdefault(tuple(t[1]), None)
+        for path in sorted(seen):
+            f = self.field_of_path(cls, path)
+            if f is None or f.get('kind') not in ('int', 'bool', 'enum'):
+                continue
+            rep.count('L9')
+            ok = f.get('kind') != 'int' or f.get('signed') is False
+            rep.ob('L9', '%s|%s' % (sc, fmt_path(path)), ok, rep.site(self.F.records.get(cls, {}).get('file'), f.get('line')) or self.fnsite(cls, 'read'),
+                   '%s: %s (%s) takes part in deciding the decoded shape and is unsigned' % (sc, fmt_path(path), f.get('t')) if ok else
+                   '%s: %s decides the shape of the decoded object (guard or length in read()) but has the signed type %s: bit patterns with the top bit '
+                   'set take the other branch / give a negative length, unlike every other shape-deciding word of the format' % (sc, fmt_path(path), f.get('t')),
+                   nontrivial=True)
 
     # ------------------------------------------------------------------ write -> read (L1, L2, L5)
     def check_roundtrip(self, cls):
@@ -337,7 +402,9 @@ class LayoutRules:
             init.sz = dict(R.sz)
             # containers the reader never touched are still empty (fresh object)
             wpaths = live(Iw.run('write', init=init))
-            wpaths = [w for w in wpaths if not w.thrown and not w.stale]
+            # (paths on which the size function consulted a member that write() redefines - L8 - are executed as written: that IS what
+            # the encoder does with the state the decoder left)
+            wpaths = [w for w in wpaths if not w.thrown]
             rep.analysed['paths'] += len(wpaths)
             site = self.fnsite(cls, 'write')
             problems = []
@@ -346,8 +413,14 @@ class LayoutRules:
                 # fields the encoder recomputes by design: the header's size fields, and members assigned from a
                 # container size / size function (a constant assignment is *not* a recomputation: it destroys the value read)
                 recomputed = {a[0] for a in W.assigned if not (a[3] or {}).get('literal')}
-                ri = [i for i in R.items]
-                wi = [i for i in W.items]
+                # items that are provably empty on this writer path (a payload of size() == 0 that one side skips explicitly) carry no bytes
+                def _empty(it_):
+                    if it_.kind == 'pad':
+                        return False
+                    w_ = sym.subst_eq(sym.drop_trunc(it_.width), W.guards)
+                    return w_.is_const() and w_.c == 0
+                ri = [i for i in R.items if not _empty(i)]
+                wi = [i for i in W.items if not _empty(i)]
                 n = min(len(ri), len(wi))
                 for k in range(n):
                     a, b = ri[k], wi[k]
@@ -379,8 +452,10 @@ class LayoutRules:
                                          '%s %s (+%d more) without a counterpart on the other side [write guards: %s]' %
                                          (side, extra.desc(), abs(len(wi) - len(ri)) - 1, wg), self.site(extra)))
             seen = set()
+            gk = re.sub(r'#\d+', '', g)
             for (rule, key, what, s) in problems:
-                k = '%s|%s' % (sc, key)
+                # the reader path is part of the identity of a finding: the same symptom under another input condition is another finding
+                k = '%s|%s' % (sc, key) + ('|when ' + gk if R.guards else '')
                 if (rule, k) in seen or (rule, k) in self._reported:
                     continue
                 seen.add((rule, k))
